@@ -616,6 +616,19 @@ impl World {
 			blocked: false,
 			panicked: false,
 		});
+		// C09, decided at issue time: a blocking request inside a retrying-collection acquisition
+		// that cannot be granted now while the caller holds a lock of another group
+		if op == Op::Lock && !grantable_now && held_other_groups > 0 {
+			if let Some(c) = g.threads[tid as usize].call {
+				if c.retry {
+					let d = format!(
+						"{}: blocking request for lock {lock} is not grantable while the thread holds {:?} (locks outside that lock's owned unit: {held_other_groups})",
+						c.label, held_now
+					);
+					push_violation(&mut g, "C09", "wait_while_holding", d);
+				}
+			}
+		}
 		g.trace_hash = mix(
 			g.trace_hash,
 			((tid as u64) << 40) | ((lock as u64) << 8) | ((op as u64) << 1) | (mode as u64),
